@@ -90,6 +90,7 @@ def curved_is_inside(chk, shapes, cls):
         n = 0
         for p in chk.explore(fkey, run, assumptions=Q.facts()):
             if p.kind != "return":
+                chk.path_raised(fkey, p)
                 continue
             n += 1
             t = f"{mode}:{path_tag(p)}"
